@@ -54,6 +54,7 @@ func TestForcedRapid(t *testing.T) {
 			st.Sample(cc)
 		}
 		st.ClassIf(c.DeadSB, "dead-sb")
+		st.ClassIf(c.NoSBSeat, "no-sb-seat")
 		st.ClassIf(c.DB > 0, "dealer-blind")
 		st.ClassIf(c.Ante > 0, "ante")
 		st.ClassIf(c.SB == 0, "sb=0")
@@ -87,11 +88,12 @@ func TestForcedGrid(t *testing.T) {
 					for _, bb := range []int64{1, 2, 3} {
 						for _, db := range []int64{0, 2} {
 							for dealer := 0; dealer < n; dealer++ {
-								for _, dead := range []bool{false, true} {
-									if dead && n == 2 {
+								for layout := 0; layout < 3; layout++ {
+									// 0 standard, 1 the seat after the dealer holds no position, 2 no small-blind seat at all
+									if layout == 1 && n == 2 {
 										continue
 									}
-									cfgs = append(cfgs, &Cfg{N: n, Dealer: dealer, DeadSB: dead, Ante: ante, SB: sb, BB: bb, DB: db, Limit: "no", Hole: 2, Bank: bank, Deck: deck})
+									cfgs = append(cfgs, &Cfg{N: n, Dealer: dealer, DeadSB: layout == 1, NoSBSeat: layout == 2, Ante: ante, SB: sb, BB: bb, DB: db, Limit: "no", Hole: 2, Bank: bank, Deck: deck})
 								}
 							}
 						}
